@@ -21,6 +21,9 @@ const MaxBatchSize = real.MaxBatchSize
 // Absorb calls on this Curl object since it was created; Reset does not restart the count).
 var Script func(batch int, src []trinary.Trits, l, h *[consts.HashTrinarySize]uint)
 
+// ScriptEx is like Script but also receives the Curl object (one per worker), so that a script can follow each worker.
+var ScriptEx func(obj *Curl, batch int, src []trinary.Trits, l, h *[consts.HashTrinarySize]uint)
+
 // BatchHook, when non-nil, is called at the start of every Absorb.
 var BatchHook func()
 
@@ -58,6 +61,15 @@ func (c *Curl) Clone() *Curl {
 func (c *Curl) Absorb(src []trinary.Trits, tritsCount int) error {
 	if BatchHook != nil {
 		BatchHook()
+	}
+	if ScriptEx != nil {
+		if len(src) < 1 || len(src) > MaxBatchSize {
+			return consts.ErrInvalidBatchSize
+		}
+		ScriptEx(c, c.batches, src, &c.l, &c.h)
+		c.batches++
+		c.scripted = true
+		return nil
 	}
 	if Script != nil {
 		if len(src) < 1 || len(src) > MaxBatchSize {
